@@ -96,6 +96,14 @@ static Base pal_bmp(int bpp, int w, int h, vt::Rng& rng) {
     for (int y = 0; y < h; ++y) for (int k = 0; k < pitch; ++k) b[off + y * pitch + k] = (unsigned char)rng.next();
     return Base{"bmp", "valid-" + std::to_string(bpp) + "bpp-" + std::to_string(w) + "x" + std::to_string(h), b};
 }
+// hand-built valid true-colour BMPs: 15 / 16 bpp (GIL cannot write them), 24 and 32 bpp, every width (row padding residues)
+static Base tc_bmp(int bppfield, int w, int h, vt::Rng& rng) {
+    int bits = bppfield == 15 ? 16 : bppfield; int pitch = ((w * bits + 31) / 32) * 4; int off = 54; Bytes b(off + pitch * h, 0);
+    auto le32 = [&](int at, uint32_t v) { b[at] = v & 255; b[at + 1] = (v >> 8) & 255; b[at + 2] = (v >> 16) & 255; b[at + 3] = (v >> 24) & 255; };
+    b[0] = 'B'; b[1] = 'M'; le32(2, (uint32_t)b.size()); le32(10, off); le32(14, 40); le32(18, w); le32(22, h); b[26] = 1; b[28] = (unsigned char)bppfield; le32(34, pitch * h);
+    for (int y = 0; y < h; ++y) for (int k = 0; k < pitch; ++k) b[off + y * pitch + k] = (unsigned char)rng.next();
+    return Base{"bmp", "valid-" + std::to_string(bppfield) + "bpp-" + std::to_string(w) + "x" + std::to_string(h), b};
+}
 int main(int argc, char** argv) {
     vt::Args args(argc, argv); A = &args; vt::install_handlers(); vt::T().open(args.out.c_str());
     g_tmp = args.rest.size() > 0 ? args.rest[0] : "/tmp"; g_corpus = args.rest.size() > 1 ? args.rest[1] : "/repo/test/extension/io/images";
@@ -114,6 +122,9 @@ int main(int argc, char** argv) {
                            mutate<gil::bmp_tag, Y>(corpus("bmp", "bmp", "g08os2.bmp"), rng, serial, args.shard, args.nshards); }
     // valid files of every width: only the unmodified file is read (a fault here has no excuse)
     for (int bpp : {1, 4, 8}) for (int w = 1; w <= (args.thorough() ? 72 : 41); ++w) { Base vb = pal_bmp(bpp, w, 1 + w % 3, rng); if ((serial++ % args.nshards) == args.shard) run_case<gil::bmp_tag, Y>(vb, "original", vb.bytes, serial); }
+    for (int bpp : {15, 16, 24, 32}) for (int w = 1; w <= (args.thorough() ? 72 : 41); ++w) { Base vb = tc_bmp(bpp, w, 1 + w % 3, rng); if ((serial++ % args.nshards) == args.shard) run_case<gil::bmp_tag, Y>(vb, "original", vb.bytes, serial); }
+    // ... and their mutations (header bytes / fields / truncations / body bytes) for one wide 16-bit file: bpp 15 <-> 16, other widths
+    mutate<gil::bmp_tag, Y>(tc_bmp(16, 21, 2, rng), rng, serial, args.shard, args.nshards);
     mutate<gil::pnm_tag, Y>(gen<gil::pnm_tag, gil::gray8_image_t>("pnm", "gen-P5-5x4", 5, 4, rng, pi, false), rng, serial, args.shard, args.nshards);
     mutate<gil::pnm_tag, Y>(gen<gil::pnm_tag, gil::rgb8_image_t>("pnm", "gen-P6-3x2", 3, 2, rng, pi, false), rng, serial, args.shard, args.nshards);
     mutate<gil::pnm_tag, Y>(text_pnm("text-P2", "P2\n# comment\n3 2\n255\n1 2 3\n40 50 60\n"), rng, serial, args.shard, args.nshards);
